@@ -1,6 +1,7 @@
 import Cirbo.Proofs.RemoveGate
 import Cirbo.Proofs.ConnFull
 import Cirbo.Proofs.Rename
+import Cirbo.Proofs.RemoveBlock
 /-!
 # More public mutators keep the C02 invariant: copy, make_block_from_slice, left connections
 -/
@@ -301,6 +302,7 @@ inductive XOp
   | h (op : HOp)
   | copy
   | renameGate (old new : Label)
+  | removeBlock (name : Label)
   | makeBlockFromSlice (name : Label) (ins outs : List Label)
   /-- `connect_circuit(other, this_connectors, other_connectors, right_connect=False, name=, add_prefix=)`;
   `connect_left`, `extend_circuit`, `add_circuit` are this call with their documented arguments -/
@@ -315,6 +317,7 @@ def runXOp (c : Circuit) : XOp → R Circuit
   | .h op => runHOp c op
   | .copy => c.copy
   | .renameGate o n => c.renameGate o n
+  | .removeBlock n => c.removeBlock n
   | .makeBlockFromSlice n i o => c.makeBlockFromSlice n i o
   | .connectLeft other t o n a => c.connectCircuit other t o false n a
 
@@ -332,6 +335,7 @@ theorem runXOp_wfs {c c' : Circuit} {op : XOp} (hw : WFS c) (hv : op.valid) (h :
     | removeGate l => exact removeGate_wfs hw h
   | copy => exact copy_wfs hw h
   | renameGate o n => exact renameGate_wfs hw h
+  | removeBlock n => exact removeBlock_wfs hw h
   | makeBlockFromSlice n i o => exact makeBlockFromSlice_wfs hw h
   | connectLeft other t o n a => exact connectLeft_wfs hw hv h
 
